@@ -155,6 +155,21 @@ func (l *langstring) Exit(key string, ctx *ParsingContext) (bool, error) {
 	return true, fmt.Errorf("rdf langstring cannot be exited")
 }
 
+// flagNaturalLanguageMaps marks the properties of the vocabulary being parsed
+// whose range contains the langstring value as natural language maps, as Apply
+// does when it creates the value.
+func (l *langstring) flagNaturalLanguageMaps(ctx *ParsingContext) {
+	for k, p := range ctx.Result.Vocab.Properties {
+		for _, ref := range p.Range {
+			if ref.Name == langstringSpec && ref.Vocab == l.alias {
+				p.NaturalLanguageMap = true
+				ctx.Result.Vocab.Properties[k] = p
+				break
+			}
+		}
+	}
+}
+
 // Apply sets the langstring value in the context as a referenced spec.
 func (l *langstring) Apply(key string, value interface{}, ctx *ParsingContext) (bool, error) {
 	for k, p := range ctx.Result.Vocab.Properties {
